@@ -4,8 +4,12 @@ package main
 //
 //	tasks <task>;<task>;… | adv            deterministic controller
 //	tasks <task>;<task>;… | rnd <seed>     random controller (PRNG seeded with <seed>)
-//	    <task> = <waits>/<map>[/n], <waits> = `-` or `,`-separated indices of earlier tasks, <map> as for
-//	    `sched`; `/n`: the body does not run the probe itself but submits a nested task (pip:run) that does
+//	    <task> = <waits>/<map>[/<flags>], <waits> = `-` or `,`-separated indices of earlier tasks, <map> as for
+//	    `sched`; flags: `n` the body does not run the probe itself but submits a nested task (pip:run) that
+//	    does; `f` the body FAILS (the probe records enter/leave and then returns an error); digits = scope
+//	    group (default 0): every group is submitted on a root scope of its own (a failure marks the whole
+//	    context of its root scope as done, so only tasks of other groups are "everyone else"); wait lists
+//	    stay inside a group (a task manager belongs to one root scope)
 //
 // Per case a fresh application is assembled exactly like /repo/app/modules/pipelinem/main_test.go
 // (terminalm, commonm, ocm, pipelinem on a MockupApp; the SharedMutex, Runner, TasksUnit are the ones
@@ -21,15 +25,18 @@ package main
 // on its stack is blocked on a channel / mutex / wait group.  Quiescence only steers the schedule (it makes
 // "D reaches its Lock while B is still parked behind A" happen on purpose); no verdict depends on it.
 //
-// Verdicts: `fin` = every body was entered and left and TasksManager.Wait returned; `hang …` = that did
-// not happen although nothing happened for the whole watchdog period after the last gate was opened (the
-// "all get their turn" clause); `excl:<name>` = the in-process occupancy oracle saw two bodies inside with
-// conflicting access.  The recorded bodies go to the trace file as a `tivs` line for the Lean interval
+// Verdicts: `fin` = every task ended (Task.Wait returned), every task of a group without a failing task —
+// and a failing task that is the only one of its group — entered and left its body, no task ran its body
+// although a task of its wait list failed, and TasksManager.Wait of every group returned; `hang …` = some
+// task did not end although nothing happened for the whole watchdog period after the last gate was opened
+// (the "all get their turn" clause: e.g. a failed task that keeps its resources); `excl:<name>` = the
+// in-process occupancy oracle saw two bodies inside with conflicting access.  The recorded bodies go to the trace file as a `tivs` line for the Lean interval
 // monitor (exclusion) and order monitor (a body starts only after the bodies of its wait list ended).
 
 import (
 	"bufio"
 	"bytes"
+	"errors"
 	"fmt"
 	"os"
 	"runtime"
@@ -52,6 +59,7 @@ import (
 	"github.com/goatcms/goatcore/app/modules/pipelinem/pipservices"
 	"github.com/goatcms/goatcore/app/modules/pipelinem/pipservices/namespaces"
 	"github.com/goatcms/goatcore/app/modules/terminalm"
+	"github.com/goatcms/goatcore/app/scope"
 	"github.com/goatcms/goatcore/app/terminal"
 )
 
@@ -67,17 +75,32 @@ type taskSpec struct {
 	waits  []int
 	rows   []row
 	nested bool // the body does not run the probe itself: it submits a nested task (pip:run) that does
+	fails  bool // the body ends with an error
+	group  int  // root scope the task is submitted on
 }
 
 func parseTaskSpecs(t string) ([]taskSpec, error) {
 	var res []taskSpec
 	for i, part := range strings.Split(strings.TrimSpace(t), ";") {
 		wm := strings.Split(part, "/")
-		if len(wm) != 2 && !(len(wm) == 3 && wm[2] == "n") {
+		if len(wm) != 2 && len(wm) != 3 {
 			return nil, fmt.Errorf("bad task %q", part)
 		}
 		var sp taskSpec
-		sp.nested = len(wm) == 3
+		if len(wm) == 3 {
+			for _, c := range wm[2] {
+				switch {
+				case c == 'n':
+					sp.nested = true
+				case c == 'f':
+					sp.fails = true
+				case c >= '0' && c <= '9':
+					sp.group = sp.group*10 + int(c-'0')
+				default:
+					return nil, fmt.Errorf("bad flags %q", wm[2])
+				}
+			}
+		}
 		if wm[0] != "-" && wm[0] != "" {
 			for _, w := range strings.Split(wm[0], ",") {
 				n, err := strconv.Atoi(w)
@@ -92,6 +115,11 @@ func parseTaskSpecs(t string) ([]taskSpec, error) {
 			return nil, fmt.Errorf("bad map %q", wm[1])
 		}
 		sp.rows = maps[0]
+		for _, w := range sp.waits {
+			if res[w].group != sp.group {
+				return nil, fmt.Errorf("wait list of task %d leaves its scope group", i)
+			}
+		}
 		res = append(res, sp)
 	}
 	return res, nil
@@ -101,8 +129,18 @@ func taskSpecsText(specs []taskSpec) string {
 	parts := make([]string, len(specs))
 	for i, sp := range specs {
 		parts[i] = joinWaits(sp.waits) + "/" + holdersText([][]row{sp.rows})
+		flags := ""
 		if sp.nested {
-			parts[i] += "/n"
+			flags += "n"
+		}
+		if sp.fails {
+			flags += "f"
+		}
+		if sp.group > 0 {
+			flags += strconv.Itoa(sp.group)
+		}
+		if flags != "" {
+			parts[i] += "/" + flags
 		}
 	}
 	return strings.Join(parts, ";")
@@ -126,6 +164,7 @@ type tcase struct {
 	seq        int64
 	enter      []int64 // per task: sequence number drawn inside the body after it started (0 = not yet)
 	leave      []int64 // per task: sequence number drawn inside the body before it returns
+	ended      []bool  // per task: Task.Wait returned (task.Close has run)
 	bodyGate   []chan struct{}
 	hookParked []chan struct{}
 	free       bool // end of case: nothing parks any more
@@ -139,7 +178,7 @@ var currentT atomic.Value // *tcase
 
 func newTcase(specs []taskSpec) *tcase {
 	tc := &tcase{specs: specs, enter: make([]int64, len(specs)), leave: make([]int64, len(specs)),
-		bodyGate: make([]chan struct{}, len(specs)), occ: map[string]*int32{}}
+		ended: make([]bool, len(specs)), bodyGate: make([]chan struct{}, len(specs)), occ: map[string]*int32{}}
 	for _, sp := range specs {
 		for _, r := range sp.rows {
 			if tc.occ[r.name] == nil {
@@ -221,7 +260,32 @@ func (tc *tcase) probe(a app.App, ctx app.IOContext) (err error) {
 	tc.leave[t] = tc.seq
 	tc.events++
 	tc.mu.Unlock()
+	if tc.specs[t].fails {
+		return errBodyFails
+	}
 	return nil
+}
+
+var errBodyFails = errors.New("probe:cs: this body fails")
+
+// groupHasOtherFailure: a task of t's scope group other than t has a failing body
+func groupHasOtherFailure(specs []taskSpec, t int) bool {
+	for i, sp := range specs {
+		if i != t && sp.fails && sp.group == specs[t].group {
+			return true
+		}
+	}
+	return false
+}
+
+// mustNotRun: a task of t's wait list fails, or had to give up itself (transitively)
+func mustNotRun(specs []taskSpec, t int) bool {
+	for _, w := range specs[t].waits {
+		if specs[w].fails || mustNotRun(specs, w) {
+			return true
+		}
+	}
+	return false
 }
 
 // ---------------------------------------------------------------------------------------------
@@ -359,7 +423,14 @@ func opTasks(specs []taskSpec, mode string, seed uint64) (res string, trace stri
 	if err = mapp.DependencyProvider().InjectTo(&deps); err != nil {
 		return "harness-error " + err.Error(), tc.traceLine()
 	}
-	root := mapp.Scopes().App()
+	roots := map[int]app.Scope{0: mapp.Scopes().App()}
+	lastOfGroup := map[int]int{}
+	for i, sp := range specs {
+		if roots[sp.group] == nil {
+			roots[sp.group] = scope.New(scope.Params{})
+		}
+		lastOfGroup[sp.group] = i
+	}
 	cwd := mapp.Filespaces().CWD()
 	n := len(specs)
 	submit := func(i int) error {
@@ -381,7 +452,7 @@ func opTasks(specs []taskSpec, mode string, seed uint64) (res string, trace stri
 					Out:   gio.NewNilOutput(),
 					Err:   gio.NewNilOutput(),
 					CWD:   cwd,
-					Scope: root,
+					Scope: roots[specs[i].group],
 				},
 				Name:       taskName(i),
 				Namespaces: namespaces.NewNamespaces(pipservices.NamasepacesParams{}),
@@ -395,7 +466,26 @@ func opTasks(specs []taskSpec, mode string, seed uint64) (res string, trace stri
 		tc.mu.Lock()
 		tc.events++
 		tc.mu.Unlock()
-		return rerr
+		if rerr != nil {
+			return rerr
+		}
+		// watch the completion latch of the task
+		tm, terr := deps.TasksUnit.FromScope(roots[specs[i].group])
+		if terr != nil {
+			return terr
+		}
+		task, ok := tm.Get(taskName(i))
+		if !ok {
+			return fmt.Errorf("accepted task %s is not in its manager", taskName(i))
+		}
+		go func() {
+			hx.Guard(func() { task.Wait() })
+			tc.mu.Lock()
+			tc.ended[i] = true
+			tc.events++
+			tc.mu.Unlock()
+		}()
+		return nil
 	}
 
 	wd := watchdog
@@ -421,13 +511,15 @@ func opTasks(specs []taskSpec, mode string, seed uint64) (res string, trace stri
 			cs = append(cs, choice{openHook, k})
 		}
 		for t, ch := range tc.bodyGate {
-			if ch != nil {
+			// a failing body is let go only when its whole scope group has been submitted (afterwards the
+			// group's root scope refuses new tasks)
+			if ch != nil && !(specs[t].fails && lastOfGroup[specs[t].group] >= next) {
 				cs = append(cs, choice{openBody, t})
 			}
 		}
 		left := 0
-		for _, l := range tc.leave {
-			if l != 0 {
+		for _, e := range tc.ended {
+			if e {
 				left++
 			}
 		}
@@ -484,22 +576,22 @@ func opTasks(specs []taskSpec, mode string, seed uint64) (res string, trace stri
 		atomic.AddInt32(&taskHangs, 1)
 		tc.mu.Lock()
 		var un []string
-		for t, l := range tc.leave {
-			if l == 0 {
+		for t, e := range tc.ended {
+			if !e {
 				un = append(un, strconv.Itoa(t))
 			}
 		}
 		tc.mu.Unlock()
 		res = "hang unfinished=" + strings.Join(un, ",")
 	} else {
-		// every body has returned: the manager's Wait must return
-		tm, terr := deps.TasksUnit.FromScope(root)
-		if terr != nil {
-			return "harness-error " + terr.Error(), tc.traceLine()
-		}
+		// every task has ended: the Wait of every group's manager must return
 		waited := make(chan struct{})
 		go func() {
-			hx.Guard(func() { tm.Wait() })
+			for _, root := range roots {
+				if tm, terr := deps.TasksUnit.FromScope(root); terr == nil {
+					hx.Guard(func() { tm.Wait() })
+				}
+			}
 			close(waited)
 		}()
 		timer := time.NewTimer(wd)
@@ -510,6 +602,25 @@ func opTasks(specs []taskSpec, mode string, seed uint64) (res string, trace stri
 			res = "hang mwait"
 		}
 		timer.Stop()
+		// who had to run its body, who must not have
+		tc.mu.Lock()
+		var skipped, ran []string
+		for t := range specs {
+			if mustNotRun(specs, t) {
+				if tc.enter[t] != 0 {
+					ran = append(ran, strconv.Itoa(t))
+				}
+			} else if !groupHasOtherFailure(specs, t) && tc.leave[t] == 0 {
+				skipped = append(skipped, strconv.Itoa(t))
+			}
+		}
+		tc.mu.Unlock()
+		if len(skipped) > 0 {
+			res += " no-body=" + strings.Join(skipped, ",")
+		}
+		if len(ran) > 0 {
+			res += " ran-after-failed=" + strings.Join(ran, ",")
+		}
 	}
 	if v := tc.exclBad.Load(); v != nil {
 		res += " excl:" + v.(string)
@@ -534,7 +645,8 @@ func (tc *tcase) releaseAll() {
 	tc.mu.Unlock()
 }
 
-// traceLine renders the recorded bodies: `tivs <waits>;… | <task>:<enter>:<exit>:<rows> …`; a body that
+// traceLine renders the recorded bodies: `tivs <waits>[f];… | <task>:<enter>:<exit>:<rows> …` (`f` after the
+// wait list of a task whose body fails); a body that
 // was entered and never left still holds its rows: its exit is past every recorded number.
 func (tc *tcase) traceLine() string {
 	tc.mu.Lock()
@@ -542,6 +654,9 @@ func (tc *tcase) traceLine() string {
 	ws := make([]string, len(tc.specs))
 	for i, sp := range tc.specs {
 		ws[i] = joinWaits(sp.waits)
+		if sp.fails {
+			ws[i] += "f"
+		}
 	}
 	var b strings.Builder
 	b.WriteString("tivs " + strings.Join(ws, ";") + " |")
@@ -575,12 +690,16 @@ func (tc *tcase) traceLine() string {
 
 // advFamily: task D waits for B, D and B share a resource with a writer, and B cannot take it yet because
 // a third task A holds a lexicographically smaller resource of B's map — plus variations (who writes,
-// chains of waits, several blockers, bystanders).  Deterministic: index k selects the variation.
+// chains of waits, several blockers, bystanders); from 11 on: failing bodies (a failing holder of a
+// resource somebody else needs afterwards, a failing prerequisite whose dependant must give up without a
+// lock).  Deterministic: index k selects the variation.
 func advFamily(k int) []taskSpec {
 	w := func(name string) row { return row{name, true} }
 	r := func(name string) row { return row{name, false} }
 	t := func(waits []int, rows ...row) taskSpec { return taskSpec{waits: waits, rows: rows} }
 	n := func(waits []int, rows ...row) taskSpec { return taskSpec{waits: waits, rows: rows, nested: true} }
+	f := func(sp taskSpec) taskSpec { sp.fails = true; return sp }
+	g := func(grp int, sp taskSpec) taskSpec { sp.group = grp; return sp }
 	switch k % advVariants {
 	case 0: // the basic triangle
 		return []taskSpec{t(nil, w("a")), t(nil, w("m"), w("a")), t([]int{1}, w("m"))}
@@ -602,18 +721,41 @@ func advFamily(k int) []taskSpec {
 		return []taskSpec{n(nil, w("m")), n(nil, w("m"))}
 	case 9: // nested writer against plain reader and a nested dependant
 		return []taskSpec{n(nil, w("m"), r("a")), t(nil, r("m")), n([]int{0}, w("m"))}
-	default: // the triangle with nested bodies
+	case 10: // the triangle with nested bodies
 		return []taskSpec{n(nil, w("a")), n(nil, w("m"), w("a")), n([]int{1}, w("m"))}
+	// --- failing bodies: a task that failed has ended and released everything; its dependants give up
+	// without a lock; everyone else (the tasks of the other scope groups) gets its turn
+	case 11: // a failing writer of m, then a writer of m
+		return []taskSpec{g(1, f(t(nil, w("m")))), t(nil, w("m"))}
+	case 12: // a failing writer, then a reader
+		return []taskSpec{g(1, f(t(nil, w("m")))), t(nil, r("m"))}
+	case 13: // a failing reader, then a writer
+		return []taskSpec{g(1, f(t(nil, r("m")))), t(nil, w("m"))}
+	case 14: // a failing prerequisite: its dependant gives up and must take no lock; others need what both name
+		return []taskSpec{g(1, f(t(nil, w("a")))), g(1, t([]int{0}, w("m"))), t(nil, w("m")), t(nil, w("a"))}
+	case 15: // the failure happens in a nested task started by the body
+		return []taskSpec{g(1, f(n(nil, w("m")))), t(nil, w("m"))}
+	case 16: // a failing holder of two resources, followers need one each / both
+		return []taskSpec{g(1, f(t(nil, w("m"), w("a")))), t(nil, w("a")), t(nil, w("m"), w("a"))}
+	case 17: // the failure hits group 0 (with a sibling), the other group needs the resources of both
+		return []taskSpec{f(t(nil, w("m"))), t(nil, w("a")), g(1, t(nil, w("m"))), g(1, t(nil, w("a")))}
+	case 18: // chain: a good prerequisite, a failing middle task, a dependant that gives up
+		return []taskSpec{g(1, t(nil, w("a"))), g(1, f(t([]int{0}, w("m")))), g(1, t([]int{1}, w("z"))),
+			t(nil, w("z"), w("m"))}
+	default: // two failing readers in two groups, then a writer
+		return []taskSpec{g(1, f(t(nil, r("m")))), g(2, f(t(nil, r("m")))), t(nil, w("m"))}
 	}
 }
 
-const advVariants = 11
+const advVariants = 20
 
 func genTasksAdv(k int) string {
 	return "tasks " + taskSpecsText(advFamily(k)) + " | adv"
 }
 
-// genTasksRnd: 2–7 tasks over a pool of 1–4 names; wait lists over earlier tasks; with probability 1/2 a
+// genTasksRnd: 2–7 tasks over a pool of 1–4 names; in half of the cases the tasks are spread over 2–3 scope
+// groups and any subset of them (each with probability 1/4) has a failing body; wait lists over earlier tasks
+// of the same group; with probability 1/2 a
 // task that waits shares a resource (at least one side writing) with one of its prerequisites; tasks
 // without waits often hold a small name so that acquisition orders vary.
 func genTasksRnd(r *hx.Rand) string {
@@ -622,12 +764,25 @@ func genTasksRnd(r *hx.Rand) string {
 	names := pool[:np]
 	writePct := []int{30, 60, 60, 100}[r.Intn(4)]
 	specs := make([]taskSpec, n)
+	// half of the cases: 2-3 scope groups and failing bodies (any subset, each task with probability 1/4)
+	groups, failPct := 1, 0
+	if r.Intn(2) == 0 {
+		groups, failPct = 2+r.Intn(2), 25
+	}
 	for i := range specs {
-		if i > 0 && r.Intn(5) < 2 {
+		specs[i].group = r.Intn(groups)
+		specs[i].fails = r.Intn(100) < failPct
+		var same []int // earlier tasks of the same group: a task manager belongs to one root scope
+		for j := 0; j < i; j++ {
+			if specs[j].group == specs[i].group {
+				same = append(same, j)
+			}
+		}
+		if len(same) > 0 && r.Intn(5) < 2 {
 			k := 1 + r.Intn(2)
 			seen := map[int]bool{}
 			for j := 0; j < k; j++ {
-				w := r.Intn(i)
+				w := same[r.Intn(len(same))]
 				if !seen[w] {
 					seen[w] = true
 					specs[i].waits = append(specs[i].waits, w)
